@@ -11,7 +11,7 @@ import (
 	"strconv"
 
 	"github.com/verily-src/fhirpath-go/fhirpath/verifharness/core"
-	_ "github.com/verily-src/fhirpath-go/fhirpath/verifharness/props"
+	"github.com/verily-src/fhirpath-go/fhirpath/verifharness/props"
 )
 
 func main() {
@@ -33,12 +33,16 @@ func main() {
 		workdir  = flag.String("workdir", "", "")
 		replay   = flag.String("replay", "", "replay file")
 		list     = flag.Bool("list", false, "list properties")
+		selftest = flag.Bool("selftest", false, "run harness self tests")
 	)
 	flag.Parse()
 	seed, err := strconv.ParseUint(*seedS, 10, 64)
 	if err != nil {
 		// tolerate negative / non-numeric seeds deterministically
 		seed = core.Hash64(*seedS)
+	}
+	if *selftest {
+		os.Exit(props.SelfTest())
 	}
 	if *list {
 		var ids []string
